@@ -31,7 +31,7 @@ struct Msg {
 };
 
 static const char TAGS17[] = "ifsbhtdScrmTFNI[]";
-static const char ADDRCH[] = "abcdefghijklmnopqrstuvwxyzABCXYZ0123456789/_-.+!$%&'()=@^~|<>;:\"\\`";
+static const char ADDRCH[] = "abcdefghijklmnopqrstuvwxyzABCXYZ0123456789/_-.+!$%&'()=@^~|<>;:\"\\`,#*?[]{} ,,";   // every printable character, the comma more often (it also starts the type tag string)
 
 inline std::string gen_address(int maxlen = 64) {
   int len;
